@@ -12,6 +12,7 @@ Decided:
   R11.4  library code reachable from parse / schedule does not terminate the process (informational:
          sys.exit in the message handler)
   R11.5  macro expansion has an iteration cap
+  R11.6  the scheduling horizon is defined: no project leaves the model builder without an end date
 Not decided: the time bound "proportional to project size".
 """
 from __future__ import annotations
@@ -91,6 +92,78 @@ def run(ctx: Ctx):
                        "negative slot indices are rejected (no wrap-around to the end of the table)" if cl else
                        "the slot table is a Python list indexed without a lower-bound test: a negative slot silently addresses the end of the table",
                        key=key_of("R11.2", f, None, "negative index"))
+    # census: every access <x>.scoreboard[<index>] in reachable code is in range by construction
+    from ..order import local_resolver
+
+    def sizeish(e, res, d=0):
+        t = norm(e)
+        if t in ("size", "self.size") or "scoreboardSize()" in t or (t.startswith("len(") and "scoreboard" in t):
+            return True
+        if isinstance(e, ast.Call) and norm(e.func) == "min":
+            return any(sizeish(a, res, d) for a in e.args)
+        if isinstance(e, ast.Name) and d < 3:
+            vals = res(e)
+            return bool(vals) and all(sizeish(v, res, d + 1) for v in vals)
+        return False
+
+    def nonneg(e, res, d=0):
+        if isinstance(e, ast.Constant) and isinstance(e.value, int) and e.value >= 0:
+            return True
+        if isinstance(e, ast.Call) and norm(e.func) == "max":
+            return any(nonneg(a, res, d) for a in e.args)
+        if isinstance(e, ast.Name) and d < 3:
+            vals = res(e)
+            return bool(vals) and all(nonneg(v, res, d + 1) for v in vals)
+        return False
+    n_sub = 0
+    for fn in sorted(reach, key=lambda f: f.key):
+        if not fn.module.rel.startswith("scriptplan/core/"):
+            continue
+        subs = [x for x in own_nodes(fn) if isinstance(x, ast.Subscript) and isinstance(x.value, ast.Attribute) and x.value.attr == "scoreboard"
+                and not isinstance(x.slice, ast.Slice)]
+        if not subs:
+            continue
+        res = local_resolver(fn.node)
+        facts = facts_of(fn)
+        g = cfg_of(fn)
+        for sx in subs:
+            n_sub += 1
+            idx = sx.slice
+            it = norm(idx)
+            why = None
+            # (a) loop variable of a range() with clamped bounds
+            p_ = getattr(sx, "_parent", None)
+            while p_ is not None and p_ is not fn.node and why is None:
+                if isinstance(p_, ast.For) and norm(p_.target) == it and isinstance(p_.iter, ast.Call) and norm(p_.iter.func) == "range":
+                    a = p_.iter.args
+                    lo_ok = len(a) == 1 or nonneg(a[0], res)
+                    hi_ok = sizeish(a[0] if len(a) == 1 else a[1], res)
+                    if lo_ok and hi_ok:
+                        why = f"loop variable of {norm(p_.iter)[:50]}: lower bound >= 0, upper bound <= table size"
+                    else:
+                        why = False
+                        detail = (f"loop {norm(p_.iter)[:60]} indexes the slot table with "
+                                  f"{'a lower bound that can be negative' if not lo_ok else 'an upper bound that is not limited to the table size'}: "
+                                  "an interval that begins before the project start (or ends after its end) raises IndexError inside the scheduler")
+                p_ = getattr(p_, "_parent", None)
+            # (b) range facts on every path / availability fact (available() answers True only for slots inside the table)
+            if why is None:
+                node = g.node_containing(sx)
+                lo = facts.holds(node, lambda t, p: (not p) and t.replace(" ", "") == f"{it}<0") if node else None
+                hi = facts.holds(node, lambda t, p: (not p) and t.replace(" ", "").startswith(f"{it}>=") and ("size" in t or "len(" in t)) if node else None
+                av = facts.holds(node, lambda t, p: p and (t == "force" or t.endswith(f".available({it})"))) if node else None
+                if lo is not None and hi is not None:
+                    why = f"0 <= {it} < size holds on every path to the access"
+                elif av is not None and any(t != "force" for (t, _p) in av):
+                    why = f"reached only after available({it}) answered True (it does so only for slots inside the table)"
+                else:
+                    why = False
+                    detail = (f"the slot table is indexed with {it} without a range test on every path (lower {lo is not None}, upper {hi is not None}): "
+                              "a bound outside the project window raises IndexError inside the scheduler")
+            ctx.ob("R11.2", f"{fn.qual}: {norm(sx)[:50]} at line {getattr(sx, 'lineno', '?')}", (fn, sx), bool(why),
+                   why if why else detail, key=key_of("R11.2", fn, None, f"range {norm(sx)}"))
+    if n_sub < 10:
+        raise AnchorMissing(f"slot-table accesses found: {n_sub}")
     # functions that take a slot and index a slot table
     for qual, slot_param, table in (("Project.isWorkingTime", "sbIdx", "self.scoreboard"),
                                     ("ResourceScenario.available", "sb_idx", "self.scoreboard")):
@@ -123,6 +196,42 @@ def run(ctx: Ctx):
         ctx.ob("R11.2", f"{sched.qual}: runaway test in the slot walk", (sched, w), ok,
                "cursor outside [start, end] marks the task as runaway and stops" if ok else "slot walk has no runaway exit",
                key="R11.2|schedule|runaway")
+    # the walk never BEGINS outside the window either: at the loop header the cursor is inside [lower, upper] on every path
+    # (a task pinned outside the project frame must be reported, not given dates beyond the horizon)
+    gsch = cfg_of(sched)
+    fsch = facts_of(sched)
+    for w in walks:
+        hdr = gsch.node_of(w)
+        lo = fsch.holds(hdr, lambda t, p: (not p) and t.replace(" ", "") == "self.currentSlotIdx<lowerLimit")
+        hi = fsch.holds(hdr, lambda t, p: (not p) and t.replace(" ", "") == "self.currentSlotIdx>upperLimit")
+        ok = lo is not None and hi is not None
+        ctx.ob("R11.2", f"{sched.qual}: the slot walk begins inside the project window", (sched, w), ok,
+               "lowerLimit <= cursor <= upperLimit holds whenever scheduleSlot() is called" if ok else
+               f"scheduleSlot() can be called with a cursor outside the project window (lower fact {lo is not None}, upper fact "
+               f"{hi is not None}): a milestone or duration task pinned outside the time frame is marked scheduled with dates beyond the horizon",
+               key="R11.2|schedule|walk starts in window")
+    ssn = repo.func("Project.scheduleScenario")
+    gss = cfg_of(ssn)
+    pre = [l for l in own_nodes(ssn) if isinstance(l, ast.For) and norm(l.iter) == "all_tasks"]
+    if not pre:
+        raise AnchorMissing("scheduleScenario: milestone pre-pass not found")
+    marks = [n for n in gss.nodes if n.kind == "stmt" and isinstance(n.ast, ast.Assign) and "scheduled" in norm(n.ast.targets[0])
+             and any(n.ast is x for st in pre[0].body for x in ast.walk(st))]
+    hdr = gss.node_of(pre[0])
+
+    def horizon_test(n):
+        if n.kind != "if" or n.ast is None:
+            return False
+        t = norm(n.ast.test if isinstance(n.ast, ast.If) else n.ast).replace('"', "'")
+        return "self['start']" in t and "self['end']" in t
+    for m in marks:
+        ok = gss.all_paths_pass(hdr, m, horizon_test)
+        ctx.ob("R11.2", f"{ssn.qual}: pre-pass {norm(m.ast)[:50]} only for dates inside the project frame", (ssn, m.ast), ok,
+               "milestones pinned outside [project start, project end] are left to the walk (which reports them)" if ok else
+               "the milestone pre-pass marks a task scheduled without comparing its pinned date with the project frame",
+               key=key_of("R11.2", ssn, None, "prepass horizon " + norm(m.ast)[:40]))
+    if not marks:
+        raise AnchorMissing("scheduleScenario: milestone pre-pass marks nothing as scheduled")
     # ---------------------------------------------------------------- R11.3 recursion
     succ = {f: set() for f in reach}
     site_of = {}
@@ -178,6 +287,44 @@ def run(ctx: Ctx):
     ok = bool(caps) and all(classify(em, w)[0] == "cursor" and "max_iterations" in norm(w.test) for w in caps)
     ctx.ob("R11.5", f"{em.qual}: expansion passes are capped", em, ok, "iteration < max_iterations with iteration += 1 per pass" if ok else
            "macro expansion has no iteration cap: a self-referential macro loops for ever", key="R11.5|_expand_macros|cap")
+    # ---------------------------------------------------------------- R11.6 the scheduling horizon is defined
+    # Project.schedule converts project['end'] to a slot index (dateToIdx) without a None test; the model builder is the only
+    # writer: every normal path of ModelBuilder.build from the creation of the Project to its return either assigns
+    # project['end'] or passes a test of it that raises
+    mb = repo.func("ModelBuilder.build")
+    gm = cfg_of(mb)
+
+    def defines_end(n):
+        a = n.ast
+        if a is None:
+            return False
+        if n.kind == "stmt" and isinstance(a, ast.Assign) and any(isinstance(t, ast.Subscript) and norm(t.slice) in ("'end'", '"end"')
+                                                                  and "project" in norm(t.value) for t in a.targets):
+            # only an unconditional definition counts; conditional ones are covered by the check below
+            return False
+        tst = a.test if isinstance(a, ast.If) else (a if n.kind == "if" else None)
+        if tst is not None and "end" in norm(tst) and "None" in norm(tst) and "project" in norm(tst):
+            body = None
+            p_ = a if isinstance(a, ast.If) else getattr(a, "_parent", None)
+            if isinstance(p_, ast.If):
+                body = p_.body
+            return bool(body) and any(isinstance(x, ast.Raise) for x in body)
+        return False
+    rets = [n for n in gm.nodes if n.kind == "stmt" and isinstance(n.ast, ast.Return)]
+    creates = [n for n in gm.nodes if n.kind == "stmt" and isinstance(n.ast, ast.Assign) and isinstance(n.ast.value, ast.Call)
+               and norm(n.ast.value.func) == "Project"]
+    if not rets or not creates:
+        raise AnchorMissing("ModelBuilder.build: Project(...) creation / return not found")
+    for r in rets:
+        if r.ast.value is None or "project" not in norm(r.ast.value):
+            continue
+        ok = gm.all_paths_pass(creates[0], r, defines_end)
+        ctx.ob("R11.6", f"{mb.qual}: the project end is defined on every path to {norm(r.ast)[:40]}", (mb, r.ast), ok,
+               "a header that yields no end is rejected before the project is returned" if ok else
+               "a project can leave the model builder without an end date (header without duration, unknown unit): "
+               "Project.schedule then fails with a TypeError in dateToIdx(None)",
+               key="R11.6|ModelBuilder.build|end defined")
+    ctx.floor("R11.6", 1)
     ctx.floor("R11.1", 30)
     ctx.floor("R11.2", 5)
     ctx.floor("R11.3", 3)
